@@ -288,9 +288,16 @@ func runC06Driver(c *Ctx) {
 					tm.SetFencePhase(ctx, enum.FencePhaseRollback)
 				}
 				res := "ok"
+				// every fifth sequence: the BUSINESS transaction of the first delivery cannot be committed (the
+				// first COMMIT the database sees is the business one): for the model a callback that fails
+				failing := i%5 == 2 && k == 0
 				tx, err := db.BeginTx(ctx, nil)
 				if err == nil {
+					if failing {
+						e.AddFault(memdb.Fault{Kind: "commit", Nth: 1})
+					}
 					err = tx.Commit()
+					e.ClearFaults()
 				}
 				if err != nil {
 					res = "refused"
@@ -300,7 +307,11 @@ func runC06Driver(c *Ctx) {
 					row = map[string]string{"1": "tried", "2": "committed", "3": "rollbacked", "4": "suspended"}[fmt.Sprint(r[3])]
 				}
 				results = append(results, res+":"+row)
-				toks = append(toks, fmt.Sprintf("1%c", ph))
+				if failing && tx != nil {
+					toks = append(toks, fmt.Sprintf("1%cx", ph))
+				} else {
+					toks = append(toks, fmt.Sprintf("1%c", ph))
+				}
 				if open := e.OpenTxns(); (len(open) > 0 || db.Stats().InUse > 0) && leak == "" {
 					leak = fmt.Sprintf("after delivery %d (%c, %s): transactions %v still open, %d pooled connections in use", k, ph, res, open, db.Stats().InUse)
 				}
